@@ -1,0 +1,53 @@
+//go:build verif
+
+package storage
+
+import (
+	"github.com/MixinNetwork/mixin/common"
+	"github.com/dgraph-io/badger/v4"
+)
+
+// VerifWriteSnapshotRecord stores only the snapshot body and its topology entry (the two
+// records readSnapshotWithTopo follows), without finalizing transactions, for the C28
+// correspondence harness.
+func (s *BadgerStore) VerifWriteSnapshotRecord(snap *common.SnapshotWithTopologicalOrder) error {
+	txn := s.snapshotsDB.NewTransaction(true)
+	defer txn.Discard()
+	key := graphSnapshotKey(snap.NodeId, snap.RoundNumber, snap.PayloadHash())
+	err := txn.Set(key, snap.VersionedMarshal())
+	if err != nil {
+		return err
+	}
+	err = writeTopology(txn, snap)
+	if err != nil {
+		return err
+	}
+	return txn.Commit()
+}
+
+// VerifConsensusSnapshotRecords dumps the CONSENSUSSNAPSHOT key space in key order:
+// timestamp, snapshot hash, value.
+func (s *BadgerStore) VerifConsensusSnapshotRecords() (tss []uint64, snaps [][]byte, vals [][]byte) {
+	txn := s.snapshotsDB.NewTransaction(false)
+	defer txn.Discard()
+	opts := badger.DefaultIteratorOptions
+	opts.Prefix = []byte(graphPrefixConsensusSnapshot)
+	it := txn.NewIterator(opts)
+	defer it.Close()
+	for it.Seek(opts.Prefix); it.Valid(); it.Next() {
+		key := it.Item().KeyCopy(nil)
+		val, err := it.Item().ValueCopy(nil)
+		if err != nil {
+			panic(err)
+		}
+		rest := key[len(graphPrefixConsensusSnapshot):]
+		var ts uint64
+		for _, b := range rest[:8] {
+			ts = ts<<8 | uint64(b)
+		}
+		tss = append(tss, ts)
+		snaps = append(snaps, rest[8:])
+		vals = append(vals, val)
+	}
+	return
+}
